@@ -1,6 +1,8 @@
 """C13 - Every repaired defect is counted and reported; nothing else is altered."""
 from __future__ import annotations
 
+import re
+
 import copy
 import random
 
@@ -97,6 +99,19 @@ class C13(Prop):
             obs["second_alone"] = R.run_reader(self._rcase(case, rows=case["rows2"]))
         return obs
 
+    _marker = False
+
+    def _illegal_marker(self):
+        """How the implementation words one illegal cell, learned from a strict read of a one-cell table (so that a
+        rewording of the message is not mistaken for an omission): the text in front of the quoted value."""
+        if self._marker is False:
+            obs = R.run_reader({"rows": [["**r"], ["all"], ["c"], ["m"], ["qzx"]], "form": "pdtable", "raising": False,
+                                "fixer": "strict", "filter": None})
+            text = next((e["text"] for e in obs["events"] if e["k"] == "issue"), "")
+            line = next((ln for ln in text.splitlines() if "qzx" in ln), None)
+            C13._marker = None if line is None else (line[: line.index("qzx")].rstrip("'\"` ").strip() or None)
+        return self._marker
+
     # expectation from the injected defects
     def _expect(self, exp, dups, shorts, fixer):
         kinds = exp["kinds"]
@@ -124,7 +139,11 @@ class C13(Prop):
             elif strict and not abort and not force_abort:
                 # message names every defect: one "Illegal value ..." line per illegal cell (the first table's
                 # message holds nothing else; a later one repeats the earlier log, hence "at least")
-                n_ill = msg_text.count("Illegal value")
+                marker = self._illegal_marker()
+                if marker is None:
+                    fails.append(f"{tag}message: the strict error for a single illegal cell 'qzx' does not mention it")
+                    return fails
+                n_ill = msg_text.count(marker)
                 want_ill = len(illegal) + sum(1 for r, keep in shorts for j in range(keep, len(exp["kinds"]))
                                               if exp["kinds"][j] == "onoff")
                 if n_ill < want_ill or (tag == "" and n_ill != want_ill):
@@ -134,7 +153,7 @@ class C13(Prop):
                     if f"'{name}'" not in msg_text:
                         fails.append(f"{tag}message: duplicate column {name!r} not named in the strict error")
                 for r, keep in shorts:
-                    if f"row {r} " not in msg_text:
+                    if not re.search(rf"(?<![0-9]){r}(?![0-9])", msg_text):      # the row number, however it is worded
                         fails.append(f"{tag}message: short row {r} not named in the strict error")
             return fails
         if len(tabs) != 1:
